@@ -15,6 +15,35 @@ CLAIMED = {
    technique="TLA+ design model (TLC exhaustive) + TLC-generated programs replayed into the real compiler + TLA+ trace validation",
    design_ref="DESIGN.md section 3 C01"),
 }
+CLAIMED["C02"] = dict(
+   text="TLC exhausts the bulk-driver model (every n up to 5 SIMD widths, W in {1,4,8}: in-bounds, coverage) and the lowering contract "
+        "model; the harness runs the real x86_64 JIT on generator programs compiled for 12 registers with up to 24 live values; "
+        "Trace_C02 (TLA+) decides per recorded op the local obligation (JIT result vs reference opcode on the JIT's own operand bits; "
+        "NaN~NaN, sign of zero free for min/max; integer-exact ops recomputed by TLC), whole-program agreement with the interpreter "
+        "for single points and every slice length 0..=35, one result per sample, untouched guard regions, and that the native calls "
+        "recorded by the bulk-driver hook satisfy the BulkDriver predicates.",
+   note="x86_64 only; ISA semantics are observed, not modelled; reads outside slices only via the driver's (offset,count) pairs",
+   technique="TLA+ design models (TLC) + replay of TLC-generated programs into the real JIT + TLA+ trace validation incl. hook events",
+   design_ref="DESIGN.md section 3 C02")
+CLAIMED["C04"] = dict(
+   text="TLC exhausts the simplify-walk model (every parent tape shape x every trace within the bound: child well-formed, root terms "
+        "preserved under the trace, bookkeeping equation) and the choice-cursor model; the harness takes traces from all four real "
+        "tracing evaluators, simplifies into the same and different budgets and along chains of nested boxes; Trace_C04 (TLA+) decides "
+        "per simplify call: success, variable numbering and outputs kept, child register tape implements child SSA tape, and "
+        "bit-identical point / many-point / gradient / interval results on the traced domain (child vs parent and vs the original).",
+   note="the traced domain is sampled (corners, midpoint, interior); a trace is used with the backend it came from; samples where a NaN "
+        "occurs pointwise are not judged for interval-derived traces (C03 makes no claim there)",
+   technique="TLA+ design model (TLC exhaustive) + replay into real simplify + TLA+ trace validation",
+   design_ref="DESIGN.md section 3 C04")
+CLAIMED["C20"] = dict(
+   text="TLC exhausts the choice-cursor model (interpreter cursor and JIT choice pointer with call save/restore: the k-th clause writes "
+        "entry k for every op sequence); the harness records tracing evaluations of interpreter and JIT, point and interval, on programs "
+        "with up to ~200 clauses whose clause operands are exported; Trace_C20 (TLA+) computes from the recorded operand bit patterns "
+        "what each entry must be and requires equality, full length, no Unknown entries, no-trace only when all clauses are undecided, "
+        "and exact outputs x samples shapes and metadata agreement, also for reused bulk evaluators.",
+   note="operand values are the evaluator's own (exported as extra outputs); x86_64 only",
+   technique="TLA+ design model (TLC) + replay of TLC-generated programs + TLA+ trace validation",
+   design_ref="DESIGN.md section 3 C20")
 NOT_YET = {}
 props = [json.loads(l) for l in open(os.path.join(ROOT, "properties.jsonl"))]
 m = {
